@@ -14,12 +14,16 @@ META = {
              "call, in index order, (d) the index lists only live records and acknowledged deletes stay deleted; claims_disjoint is "
              "(a); seven closed counterexamples (w_nonatomic, w_counter, w_expzero, w_stale, w_empty, w_patch, w_reindex) refute the "
              "statement for each defective fact; holds_partial: (a),(c),(d) for every schedule without PatchExpired patch/reindex steps "
-             "whatever the predicate facts are."),
-    "note": ("PARTIAL: the shift claim's beacon selection and the deleteHandler calls that follow it are one model step (a Save that "
-             "re-indexes a selected-but-not-yet-deleted record in that window is not modelled); keys are never re-created in the "
-             "model; Cap budgets are C12's.  The lock-order inversion between beacon locks and record guards (claims vs deletes / "
-             "expiry-changing saves / the first bucket build) is reproduced by a forced schedule and reported as a finding, but "
-             "deadlock freedom is not part of the proved statement.  The Go scheduler is driven, not enumerated.  Trusted: Lean "
+             "whatever the predicate facts are.  Deadlock clause (HoldsAll = claims_safe + DeadlockFree): Hv.LockOrder.no_deadlock — if every "
+             "waiting acquisition ranks above everything its thread holds, no reachable state is stuck; instantiated for the four "
+             "request kinds (selection pass, clone pass, delete, index-refreshing save) as no_deadlock_repaired (guard -> beacon lock: "
+             "passes only try the guards / clone outside the lock) and no_deadlock_beacon_first; closed witnesses deadlock_mixed_order "
+             "(delete or save vs selection pass) and deadlock_mixed_order_clone for the mixed order."),
+    "note": ("PARTIAL: a shift claim is a selection step (under the beacon lock) followed by one delete step per selected record, "
+             "other requests run in between (forced through the shift.selected hook in both CloneAndDelete* functions); keys are "
+             "never re-created in the model; Cap budgets are C12's.  The deadlock clause covers the beacon locks and the record guards only (swamp-level locks, the "
+             "bucket locks and the chronicler are not in the lock model); the lock programs of the four request kinds are written "
+             "by hand from the code, two extracted facts select the variant.  The Go scheduler is driven, not enumerated.  Trusted: Lean "
              "kernel, extract/c11.go, harness/c11.go, sync.RWMutex semantics."),
     "design_ref": "§8 C11",
 }
@@ -34,9 +38,14 @@ FINDINGS = {
     "C11-reindex-resurrects-deleted": "ReindexExpiration re-inserts a selected record that was deleted meanwhile into the expiration "
                                       "index; a later ShiftExpired returns the deleted record",
     "C11-claim-returns-deleted-record": "a shift claim returns a record that was deleted before its selection step",
-    "C11-claim-delete-deadlock": "lock-order inversion: selection passes take record guards while holding the beacon lock, deleteHandler "
-                                 "(and expiry-changing saves, and the first bucket build vs. deleteHandler) take beacon locks while "
-                                 "holding a record guard — both requests hang forever",
+    "C11-shift-delete-not-revalidated": "CloneAndDelete{Expired,Matching}Treasures: the selection pass runs under the beacon lock, the per-record "
+                                        "deleteHandler calls run afterwards and look at nothing: a record deleted by somebody else in "
+                                        "between is handed out all the same, a write acknowledged in between is dropped and the copy "
+                                        "of the selection pass is handed out",
+    "C11-claim-delete-deadlock": "two lock orders in use: beacon lock -> record guard (ShiftExpired / ShiftMatching / ShiftMany / "
+                                 "Clone*Treasures wait for each record's guard under b.mu) and record guard -> beacon lock "
+                                 "(deleteHandler and a Save that re-indexes update the beacons under the guard); a claim, a delete "
+                                 "and an index-refreshing save (or GetAll / the first bucket build) hang forever",
     "C11-selection-not-atomic": "a selection pass does not run under the beacon's write lock",
     "C11-claims-more-than-requested": "the selection pass compares `counter <= howMany`",
     "C11-claims-unexpiring-record": "the expired test lacks `exp != 0`",
@@ -47,6 +56,7 @@ def spec_violated(rep):
     ops, impl = rep["ops"], rep["impl"]
     want, how = {}, {}
     deleted, status = set(), {}
+    has_pexp = any(o.startswith("spawn") and " pexp " in o for o in ops)
     for op, line in zip(ops[1:], impl[1:]):
         f = op.split()
         if f[0] == "stress":
@@ -83,6 +93,8 @@ def spec_violated(rep):
                     return "`%s` returned %s, whose delete had been acknowledged" % (op, k)
                 if w is not None and s != w:
                     return "`%s` returned %s with status %s, the filter asks for %s" % (op, k, s, w)
+                if not has_pexp and k in status and s not in (status[k], "void"):
+                    return "`%s` returned %s with status %s; the acknowledged status is %s (an acknowledged write was dropped)" % (op, k, s, status[k])
                 deleted.add(k)
         m = re.search(r"patched=\[([^\]]*)\]", line)
         if m:
@@ -109,7 +121,7 @@ def run(ctx):
     if K.build_hx(ctx) and K.build_drv(ctx):
         args = ["%s=%s" % (k, facts.get(k, "unknown")) for k in
                 ("selectUnderLock", "counterCmp", "checksExpNonZero", "rechecksIndexedLeg", "reindexChecksExists",
-                 "patchChecksExists", "emptyCandMeansAll", "guardUnderBeaconLock", "beaconUnderGuard")]
+                 "patchChecksExists", "emptyCandMeansAll", "guardUnderBeaconLock", "beaconUnderGuard", "shiftDeleteRevalidates")]
         c = K.correspondence(ctx, "C11", args, timeout=900)
         corrs.append(("C11", args, c))
     else:
